@@ -390,6 +390,55 @@ func (c *Ctx) RunC03(tier string) {
 		rep.Bound += "; programs of 130, 260 and 300 instructions with label references spanning the whole program (distances beyond 127 and 255)"
 	}
 
+	// P2d: buffer boundaries: the first representative programs behind a comment
+	// line of every length that puts one of their bytes at offset 4096 or 8192.
+	for pi, rp := range representativePrograms()[:2] {
+		cfg := cfgM(8000, rp.dialect)
+		m, err := ref.Denote(rp.p, cfg)
+		if err != nil {
+			continue
+		}
+		src, _ := Render(rp.p, nil)
+		for _, B := range []int{4096, 8192} {
+			for pad := B - len(src) - 4; pad <= B+1; pad++ {
+				if !c.mine() || c.expired() {
+					continue
+				}
+				c.checkSrc("C03", mkCase(rp.p, m, cfg, ";"+strings.Repeat("x", pad-2)+"\n"+src, fmt.Sprintf("program %d behind a comment line of %d bytes", pi, pad)))
+				rep.Count("c03:buffer-boundary-alignments")
+			}
+		}
+	}
+	rep.Bound += "; two representative programs behind a comment line of every length that puts any of their bytes at offset 4096 or 8192"
+
+	// P2e: many symbols: 14 EQUs in a chain (each defined after its use) and 14 labels.
+	if c.Sh.I == 1%c.Sh.N {
+		for _, dialect := range []g.SimulatorMode{g.ICWS94, g.ICWS88} {
+			cfg := cfgM(8000, dialect)
+			p := baseMeta(&ref.AProg{})
+			const n = 14
+			for i := 0; i < n; i++ {
+				body := fmt.Sprintf("e%d+l%d-l0+1", i+1, i)
+				if i == n-1 {
+					body = "3"
+				}
+				// definitions in reverse order of use: e0 uses e1 which is defined later
+				p.Equs = append(p.Equs, ref.AEqu{Name: fmt.Sprintf("e%d", i), Body: toks(body)})
+				p.Ins = append(p.Ins, ref.AIns{Labels: []string{fmt.Sprintf("l%d", i)}, Op: "mov", A: operand("", fmt.Sprintf("e%d", i)), B: operand("@", fmt.Sprintf("l%d-e%d", (i*5)%n, n-1-i))})
+			}
+			p.StartKind, p.StartExpr = ref.StartOrg, toks("l13")
+			m, err := ref.Denote(p, cfg)
+			if err != nil {
+				rep.Count("c03:generator-skipped-ill-formed")
+				continue
+			}
+			src, _ := Render(p, nil)
+			c.checkSrc("C03", mkCase(p, m, cfg, src, "14 chained EQUs and 14 labels"))
+			rep.Count("c03:many-symbol-programs")
+		}
+		rep.Bound += "; a program with 14 labels and 14 EQUs chained through each other"
+	}
+
 	// P3: renderings. Representative programs x every deviation set of size
 	// <= 2 (quick: <= 1, and <= 2 for the first programs).
 	reps := representativePrograms()
